@@ -555,55 +555,79 @@ fn feb29_hint_body<const Y: i32>() {
     vcover!("dated.feb29_hint.years_ahead", matches!(hint, Some(h) if h.year() - d.year() >= 3));
 }
 
-//@H props=C01,C04 tier=off kind=bounded cap=1800 mem=medium bound="dates of the year 2024: a leap year" domain="`Feb 29` without offsets x every day of 2024; the search over leap years is closed by the 8-year gap (unwinding assertion on)" note="symbolic execution unfinished after 30 min even with DateOffset::apply replaced by its contract: the search over leap years (`year - 1..=10000` filtered by from_ymd_opt) is re-unwound from every step of `find`"
+//@H tier_C04=thorough props=C01,C04 tier=quick kind=bounded cap=1800 mem=medium bound="dates of the year 2024: a leap year" domain="`Feb 29` without offsets x every day of 2024; the search over leap years is closed by the 8-year gap (unwinding assertion on)"
 #[cfg_attr(kani, kani::proof)]
 #[cfg_attr(kani, kani::unwind(12))]
 #[cfg_attr(kani, kani::stub(opening_hours_syntax::rules::day::DateOffset::apply, date_offset_apply_model))]
+#[cfg_attr(kani, kani::stub(super::valid_ymd_after, valid_ymd_after_model))]
+#[cfg_attr(kani, kani::stub(super::valid_ymd_before, valid_ymd_before_model))]
+#[cfg_attr(kani, kani::stub(super::is_open_from_bounds, is_open_from_bounds_contract))]
+#[cfg_attr(kani, kani::stub(super::next_change_from_bounds, next_change_from_bounds_contract))]
 #[cfg_attr(verif_replay, test)]
 fn dated_filter_feb29_2024() {
     feb29_filter_body::<2024>()
 }
 
-//@H props=C02,C08,C04 tier=off kind=bounded cap=1800 mem=medium bound="dates of the year 2024: a leap year" domain="`Feb 29` without offsets x every day of 2024 x all intermediate dates; leap-year search closed by the 8-year gap (unwinding assertion on)" note="symbolic execution unfinished after 30 min even with DateOffset::apply replaced by its contract: the search over leap years (`year - 1..=10000` filtered by from_ymd_opt) is re-unwound from every step of `find`"
+//@H props=C02,C08,C04 tier=thorough kind=bounded cap=1800 mem=medium bound="dates of the year 2024: a leap year" domain="`Feb 29` without offsets x every day of 2024 x all intermediate dates; leap-year search closed by the 8-year gap (unwinding assertion on)"
 #[cfg_attr(kani, kani::proof)]
 #[cfg_attr(kani, kani::unwind(12))]
 #[cfg_attr(kani, kani::stub(opening_hours_syntax::rules::day::DateOffset::apply, date_offset_apply_model))]
+#[cfg_attr(kani, kani::stub(super::valid_ymd_after, valid_ymd_after_model))]
+#[cfg_attr(kani, kani::stub(super::valid_ymd_before, valid_ymd_before_model))]
+#[cfg_attr(kani, kani::stub(super::is_open_from_bounds, is_open_from_bounds_contract))]
+#[cfg_attr(kani, kani::stub(super::next_change_from_bounds, next_change_from_bounds_contract))]
 #[cfg_attr(verif_replay, test)]
 fn dated_hint_feb29_2024() {
     feb29_hint_body::<2024>()
 }
 
-//@H props=C01,C04 tier=off kind=bounded cap=1800 mem=medium bound="dates of the year 2097: the next leap day is eight years ahead (2100 is not a leap year)" domain="`Feb 29` without offsets x every day of 2097; the search over leap years is closed by the 8-year gap (unwinding assertion on)" note="symbolic execution unfinished after 30 min even with DateOffset::apply replaced by its contract: the search over leap years (`year - 1..=10000` filtered by from_ymd_opt) is re-unwound from every step of `find`"
+//@H props=C01,C04 tier=thorough kind=bounded cap=1800 mem=medium bound="dates of the year 2097: the next leap day is eight years ahead (2100 is not a leap year)" domain="`Feb 29` without offsets x every day of 2097; the search over leap years is closed by the 8-year gap (unwinding assertion on)"
 #[cfg_attr(kani, kani::proof)]
 #[cfg_attr(kani, kani::unwind(12))]
 #[cfg_attr(kani, kani::stub(opening_hours_syntax::rules::day::DateOffset::apply, date_offset_apply_model))]
+#[cfg_attr(kani, kani::stub(super::valid_ymd_after, valid_ymd_after_model))]
+#[cfg_attr(kani, kani::stub(super::valid_ymd_before, valid_ymd_before_model))]
+#[cfg_attr(kani, kani::stub(super::is_open_from_bounds, is_open_from_bounds_contract))]
+#[cfg_attr(kani, kani::stub(super::next_change_from_bounds, next_change_from_bounds_contract))]
 #[cfg_attr(verif_replay, test)]
 fn dated_filter_feb29_2097() {
     feb29_filter_body::<2097>()
 }
 
-//@H props=C02,C08,C04 tier=off kind=bounded cap=1800 mem=medium bound="dates of the year 2097: the next leap day is eight years ahead (2100 is not a leap year)" domain="`Feb 29` without offsets x every day of 2097 x all intermediate dates; leap-year search closed by the 8-year gap (unwinding assertion on)" note="symbolic execution unfinished after 30 min even with DateOffset::apply replaced by its contract: the search over leap years (`year - 1..=10000` filtered by from_ymd_opt) is re-unwound from every step of `find`"
+//@H tier_C04=thorough props=C02,C08,C04 tier=quick kind=bounded cap=1800 mem=medium bound="dates of the year 2097: the next leap day is eight years ahead (2100 is not a leap year)" domain="`Feb 29` without offsets x every day of 2097 x all intermediate dates; leap-year search closed by the 8-year gap (unwinding assertion on)"
 #[cfg_attr(kani, kani::proof)]
 #[cfg_attr(kani, kani::unwind(12))]
 #[cfg_attr(kani, kani::stub(opening_hours_syntax::rules::day::DateOffset::apply, date_offset_apply_model))]
+#[cfg_attr(kani, kani::stub(super::valid_ymd_after, valid_ymd_after_model))]
+#[cfg_attr(kani, kani::stub(super::valid_ymd_before, valid_ymd_before_model))]
+#[cfg_attr(kani, kani::stub(super::is_open_from_bounds, is_open_from_bounds_contract))]
+#[cfg_attr(kani, kani::stub(super::next_change_from_bounds, next_change_from_bounds_contract))]
 #[cfg_attr(verif_replay, test)]
 fn dated_hint_feb29_2097() {
     feb29_hint_body::<2097>()
 }
 
-//@H props=C01,C04 tier=off kind=bounded cap=1800 mem=medium bound="dates of the year 9997: the last leap day of the supported range lies behind" domain="`Feb 29` without offsets x every day of 9997; the search over leap years is closed by the 8-year gap (unwinding assertion on)" note="symbolic execution unfinished after 30 min even with DateOffset::apply replaced by its contract: the search over leap years (`year - 1..=10000` filtered by from_ymd_opt) is re-unwound from every step of `find`"
+//@H props=C01,C04 tier=thorough kind=bounded cap=1800 mem=medium bound="dates of the year 9997: the last leap day of the supported range lies behind" domain="`Feb 29` without offsets x every day of 9997; the search over leap years is closed by the 8-year gap (unwinding assertion on)"
 #[cfg_attr(kani, kani::proof)]
 #[cfg_attr(kani, kani::unwind(12))]
 #[cfg_attr(kani, kani::stub(opening_hours_syntax::rules::day::DateOffset::apply, date_offset_apply_model))]
+#[cfg_attr(kani, kani::stub(super::valid_ymd_after, valid_ymd_after_model))]
+#[cfg_attr(kani, kani::stub(super::valid_ymd_before, valid_ymd_before_model))]
+#[cfg_attr(kani, kani::stub(super::is_open_from_bounds, is_open_from_bounds_contract))]
+#[cfg_attr(kani, kani::stub(super::next_change_from_bounds, next_change_from_bounds_contract))]
 #[cfg_attr(verif_replay, test)]
 fn dated_filter_feb29_9997() {
     feb29_filter_body::<9997>()
 }
 
-//@H props=C02,C08,C04 tier=off kind=bounded cap=1800 mem=medium bound="dates of the year 9997: the last leap day of the supported range lies behind" domain="`Feb 29` without offsets x every day of 9997 x all intermediate dates; leap-year search closed by the 8-year gap (unwinding assertion on)" note="symbolic execution unfinished after 30 min even with DateOffset::apply replaced by its contract: the search over leap years (`year - 1..=10000` filtered by from_ymd_opt) is re-unwound from every step of `find`"
+//@H props=C02,C08,C04 tier=thorough kind=bounded cap=1800 mem=medium bound="dates of the year 9997: the last leap day of the supported range lies behind" domain="`Feb 29` without offsets x every day of 9997 x all intermediate dates; leap-year search closed by the 8-year gap (unwinding assertion on)"
 #[cfg_attr(kani, kani::proof)]
 #[cfg_attr(kani, kani::unwind(12))]
 #[cfg_attr(kani, kani::stub(opening_hours_syntax::rules::day::DateOffset::apply, date_offset_apply_model))]
+#[cfg_attr(kani, kani::stub(super::valid_ymd_after, valid_ymd_after_model))]
+#[cfg_attr(kani, kani::stub(super::valid_ymd_before, valid_ymd_before_model))]
+#[cfg_attr(kani, kani::stub(super::is_open_from_bounds, is_open_from_bounds_contract))]
+#[cfg_attr(kani, kani::stub(super::next_change_from_bounds, next_change_from_bounds_contract))]
 #[cfg_attr(verif_replay, test)]
 fn dated_hint_feb29_9997() {
     feb29_hint_body::<9997>()
@@ -755,6 +779,65 @@ fn dated_hint_years_on_both_bounds() {
 #[cfg_attr(verif_replay, test)]
 fn dated_hint_year_on_start_only() {
     start_year_hint_body::<0>(false)
+}
+
+// ---- Easter-based ranges: `easter`, `easter -2 days-easter +1 day` --------------------------------------------------------
+//
+// `easter(year)` has its own contract (a Sunday between Mar 22 and Apr 25 of that year equal to an independent computus:
+// `easter_spec`).  Here it is replaced by an abstract model that returns, per year, ANY date in that window - chosen by
+// the harness for the three years around the date - so the obligation holds for every computus.
+
+static mut EASTER_BASE_YEAR: i32 = 0;
+static mut EASTER_DAYS_AFTER_MAR_22: [u32; 3] = [0; 3];
+
+pub(crate) fn easter_model(year: i32) -> Option<NaiveDate> {
+    let (base, table) = unsafe { (EASTER_BASE_YEAR, EASTER_DAYS_AFTER_MAR_22) };
+    let k = if year == base - 1 { table[0] } else if year == base { table[1] } else if year == base + 1 { table[2] } else { 0 };
+    Some(ymd(year, 3, 22) + Duration::days(k as i64))
+}
+
+fn any_small_offset() -> DateOffset {
+    let o = nd::i64();
+    nd::assume(-40 <= o && o <= 40);
+    DateOffset { wday_offset: WeekDayOffset::None, day_offset: o }
+}
+
+//@H props=C01,C04 tier=thorough kind=bounded cap=1800 mem=medium bound="day offsets within +-40 days, start offset <= end offset, no weekday offsets" domain="year-less `easter [offset] - easter [offset]` x any Easter date per year (Mar 22 ..= Apr 25) x all dates 1900..9999; callees replaced by their contracts"
+#[cfg_attr(kani, kani::proof)]
+#[cfg_attr(kani, kani::unwind(5))]
+#[cfg_attr(kani, kani::stub(crate::utils::dates::easter, easter_model))]
+#[cfg_attr(kani, kani::stub(opening_hours_syntax::rules::day::DateOffset::apply, date_offset_apply_model))]
+#[cfg_attr(kani, kani::stub(super::valid_ymd_after, valid_ymd_after_model))]
+#[cfg_attr(kani, kani::stub(super::valid_ymd_before, valid_ymd_before_model))]
+#[cfg_attr(kani, kani::stub(super::is_open_from_bounds, is_open_from_bounds_contract))]
+#[cfg_attr(kani, kani::stub(super::next_change_from_bounds, next_change_from_bounds_contract))]
+#[cfg_attr(verif_replay, test)]
+fn dated_filter_easter_range() {
+    let (so, eo) = (any_small_offset(), any_small_offset());
+    nd::assume(so.day_offset <= eo.day_offset);
+    let r = ds::MonthdayRange::Date { start: (Date::Easter { year: None }, so), end: (Date::Easter { year: None }, eo) };
+    let d = any_date();
+    let table = [nd::u32(), nd::u32(), nd::u32()];
+    nd::assume(table[0] <= 34 && table[1] <= 34 && table[2] <= 34);
+    unsafe {
+        EASTER_BASE_YEAR = d.year();
+        EASTER_DAYS_AFTER_MAR_22 = table;
+    }
+    let got = r.filter(d, &ctx());
+    // statement: every day from (Easter + start offset) to (Easter + end offset) of some year
+    let mut spec = false;
+    let mut i = 0;
+    while i < 3 {
+        let e = ymd(d.year() - 1 + i as i32, 3, 22) + Duration::days(table[i] as i64);
+        if e + Duration::days(so.day_offset) <= d && d <= e + Duration::days(eo.day_offset) {
+            spec = true;
+        }
+        i += 1;
+    }
+    vpost!("C01.dated.easter_range_is_every_day_from_easter_plus_start_offset_to_easter_plus_end_offset", got == spec);
+    vcover!("dated.easter.hit_on_easter_sunday", got && so.day_offset == 0 && eo.day_offset == 0);
+    vcover!("dated.easter.hit_before_easter", got && d < ymd(d.year(), 3, 22) + Duration::days(table[1] as i64) && d.month() >= 3);
+    vcover!("dated.easter.miss_between", !got && d.month() == 4);
 }
 
 // ---- hint of a year-less range ---------------------------------------------------------------------------------
